@@ -190,8 +190,41 @@ classmodel("MemoryRecordsC", {"_buffer": BYTES, "_pos": INT}, real=MMOD + ":Memo
 classmodel("AnyBatchC", {})
 
 
+# the 4-byte length field of the entry at the cursor is one value, however often it is read: hton.unpack_int32 as a function
+# of (bytes, position), so that has_next() and next_batch() can be compared
+INT32_AT = dict(returns="int32_at(a0.buf, a0.pos)", pre=[("read-inside-the-buffer", "0 <= a0.pos and a0.pos + 4 <= len(a0.buf)")],
+                post=["-2**31 <= result and result < 2**31"],
+                note="hton.unpack_int32: 4 bytes big-endian at the address, sign-extended (a function of bytes and position)")
+# "a whole entry is at the cursor": the 12-byte log overhead and the Length bytes it announces are all inside the buffer
+WHOLE = ("len(self._buffer) - self._pos >= LOG_OVERHEAD"
+         " and len(self._buffer) - self._pos >= LOG_OVERHEAD + int32_at(self._buffer, self._pos + LENGTH_OFFSET)")
+
+
+@specfn("int32_at")
+def int32_at(ex, st, b, i):
+    arr = T.list_arr(b)
+    f = z3.Function("int32_at", arr.sort(), i.t.sort(), i.t.sort())
+    return V(INT, f(arr, i.t))
+
+
+@contract(MMOD + ":MemoryRecords.has_next", ["C09"])
+def _(c):
+    """C09 'the two implementations ... decode the same': a trailing partial entry (a fetch response is cut at max_bytes) is
+    reported by has_next() exactly when next_batch() would not return it - the rule of the pure-Python MemoryRecords"""
+    c.call("hton.unpack_int32", **INT32_AT)
+    c_intrinsics(c, _DEFAULT_REPLAY)
+    c.self_("MemoryRecordsC")
+    c.returns(BOOL)
+    c.requires("0 <= self._pos and self._pos <= len(self._buffer) and len(self._buffer) <= 2**40", "cursor-inside-the-buffer")
+    c.call("PyBytes_GET_SIZE", returns="len(a0)", note="length of the bytes object")
+    c.call("PyBytes_AS_STRING", returns="a0", note="the bytes object's buffer")
+    c.ensures("true-exactly-when-a-whole-entry-is-at-the-cursor", "result == (" + WHOLE + ")")
+    c.ensures("reads-only", "self._pos == old(self._pos)")
+
+
 @contract(MMOD + ":MemoryRecords._get_next", ["C10", "C09"])
 def _(c):
+    c.call("hton.unpack_int32", **INT32_AT)
     c_intrinsics(c, _DEFAULT_REPLAY)
     c.self_("MemoryRecordsC")
     c.returns(Opt(Ref("AnyBatchC")))
@@ -212,6 +245,7 @@ def _(c):
     c.ensures("cursor-stays-inside-and-moves-past-a-whole-entry",
               "old(self._pos) <= self._pos and self._pos <= len(self._buffer) and implies(result is not None, self._pos - old(self._pos) >= 26)")
     c.ensures("a-trailing-partial-entry-is-left-alone", "implies(result is None, self._pos == old(self._pos))")
+    c.ensures("none-exactly-when-has-next-is-false", "(result is None) == (not old(" + WHOLE + "))")
 
 
 @specfn("byte_at")
